@@ -125,6 +125,8 @@ type cluster struct {
 	stats         map[string]int
 	readsInFlight atomic.Int32
 	maxMsg        uint64 // raft MaxSizePerMsg (= MaxCommittedSizePerReady): small values page the committed backlog
+	checkQuorum   bool   // raft CheckQuorum (not the default of NoKV's configs)
+	noPreVote     bool   // raft PreVote off
 	inline        bool   // zero-latency network: Send steps the receiver at once (replies can arrive between two Readys of the sender)
 }
 
@@ -179,11 +181,11 @@ func (c *cluster) step(n *node, m myraft.Message) {
 
 var quietLogger = &myraft.DefaultLogger{Logger: log.New(io.Discard, "", 0)}
 
-func newCluster(dir string, nregions int, maxMsg uint64) (*cluster, error) {
+func newCluster(dir string, nregions int, maxMsg uint64, checkQuorum, noPreVote bool) (*cluster, error) {
 	if maxMsg == 0 {
 		maxMsg = 1 << 20
 	}
-	c := &cluster{dir: dir, stats: map[string]int{}, maxMsg: maxMsg}
+	c := &cluster{dir: dir, stats: map[string]int{}, maxMsg: maxMsg, checkQuorum: checkQuorum, noPreVote: noPreVote}
 	for r := 1; r <= nregions; r++ {
 		c.regions = append(c.regions, uint64(r))
 	}
@@ -237,7 +239,7 @@ func (n *node) start() error {
 		meta := c.regionMeta(region)
 		cfg := &peer.Config{
 			RaftConfig: myraft.Config{ID: peerID(region, n.id), ElectionTick: 10, HeartbeatTick: 1, MaxSizePerMsg: c.maxMsg,
-				MaxInflightMsgs: 256, PreVote: true, Logger: quietLogger},
+				MaxInflightMsgs: 256, PreVote: !c.noPreVote, CheckQuorum: c.checkQuorum, Logger: quietLogger},
 			Transport: netT{c},
 			WAL:       w,
 			Manifest:  m,
@@ -672,12 +674,14 @@ func (c *cluster) finish() []*event {
 // runSpec describes one cluster run; Desc of the emitted case, so that a run
 // can be repeated (goroutine timing is the only thing not controlled).
 type runSpec struct {
-	Seed    int64  `json:"seed"`
-	Steps   int    `json:"steps"`
-	Profile string `json:"profile"` // mixed | reads | f20 | newleader | tworegions
-	Regions int    `json:"regions,omitempty"`
-	MaxMsg  uint64 `json:"max_msg,omitempty"` // raft MaxSizePerMsg; 0 = 1 MiB
-	Faults  bool   `json:"faults,omitempty"`  // storage faults (process-wide failpoint): the run executes alone
+	Seed        int64  `json:"seed"`
+	Steps       int    `json:"steps"`
+	Profile     string `json:"profile"` // mixed | reads | f20 | newleader | tworegions
+	Regions     int    `json:"regions,omitempty"`
+	MaxMsg      uint64 `json:"max_msg,omitempty"`      // raft MaxSizePerMsg; 0 = 1 MiB
+	Faults      bool   `json:"faults,omitempty"`       // storage faults (process-wide failpoint): the run executes alone
+	CheckQuorum bool   `json:"check_quorum,omitempty"` // raft CheckQuorum on
+	NoPreVote   bool   `json:"no_pre_vote,omitempty"`  // raft PreVote off
 }
 
 // newCmd makes a command for a region: with two regions, region r owns the keys 2(r-1), 2(r-1)+1.
@@ -704,7 +708,10 @@ func runOne(spec runSpec, dir string) ([]*event, map[string]int, error) {
 	if spec.Profile == "backlog" {
 		maxMsg = 150
 	}
-	c, err := newCluster(dir, nregions, maxMsg)
+	if spec.Profile == "lease" {
+		spec.CheckQuorum = true
+	}
+	c, err := newCluster(dir, nregions, maxMsg, spec.CheckQuorum, spec.NoPreVote)
 	if err != nil {
 		return nil, nil, err
 	}
@@ -726,6 +733,9 @@ func runOne(spec runSpec, dir string) ([]*event, map[string]int, error) {
 		return c.finish(), c.stats, nil
 	case "backlog":
 		c.scriptBacklogRead()
+		return c.finish(), c.stats, nil
+	case "lease":
+		c.scriptDeposedLeaderRead()
 		return c.finish(), c.stats, nil
 	}
 	pickRegion := func() uint64 { return c.regions[rng.Intn(len(c.regions))] }
@@ -1045,6 +1055,69 @@ func (c *cluster) scriptBacklogRead() {
 	c.mu.Lock()
 	c.inline = false
 	c.mu.Unlock()
+}
+
+// scriptDeposedLeaderRead (raft CheckQuorum on): leader 1 is cut off and its
+// logical clock stalls (no ticks), so it does not notice that it lost its
+// quorum; the other two stores let an election timeout pass, elect a leader
+// and acknowledge an overwrite. A ReadCommand on store 1, which still believes
+// it leads, must fail or wait: it cannot confirm leadership with a quorum.
+func (c *cluster) scriptDeposedLeaderRead() {
+	rng := rand.New(rand.NewSource(1))
+	c.campaign(c.nodes[1], 1)
+	c.pump(500)
+	w1 := c.newCmd(rng, 1, "put")
+	c.call(c.nodes[1], 1, w1, false)
+	c.pump(500)
+	c.tick(c.nodes[1], 1)
+	c.pump(500)
+	c.mu.Lock()
+	c.cut[1] = true
+	c.mu.Unlock()
+	for i := 0; i < 45 && len(c.leaderAmong(1, 2, 3)) == 0; i++ {
+		c.tick(c.nodes[2], 1)
+		c.tick(c.nodes[3], 1)
+		c.pump(500)
+	}
+	if len(c.leaderAmong(1, 2, 3)) == 0 {
+		c.campaign(c.nodes[2], 1)
+		c.pump(500)
+	}
+	ls := c.leaderAmong(1, 2, 3)
+	if len(ls) == 0 {
+		return
+	}
+	w2 := c.newCmd(rng, 1, "put")
+	w2.K = w1.K
+	c.call(ls[0], 1, w2, false)
+	acked := c.ops[len(c.ops)-1]
+	for i := 0; i < 20; i++ {
+		c.pump(500)
+		select {
+		case <-acked.done:
+			i = 20
+		default:
+			time.Sleep(200 * time.Microsecond)
+		}
+	}
+	r := c.newCmd(rng, 1, "get")
+	r.K = w1.K
+	c.call(c.nodes[1], 1, r, true)
+	c.pump(500)
+	for i := 0; i < 50 && c.pendingOps() > 0; i++ {
+		time.Sleep(100 * time.Microsecond)
+	}
+}
+
+// leaderAmong returns the stores among ids that claim leadership of the region.
+func (c *cluster) leaderAmong(region uint64, ids ...uint64) []*node {
+	var out []*node
+	for _, id := range ids {
+		if n := c.nodes[id]; n.up && n.peer(region).Status().RaftState == myraft.StateLeader {
+			out = append(out, n)
+		}
+	}
+	return out
 }
 
 // scriptNewLeaderRead: a write is acknowledged by leader 1 while follower 2 has
